@@ -126,3 +126,25 @@ Proof.
   pose proof (revert_exact ripemd_world [OAddBalance ripemd 0] (new_state_wf _)) as H. cbn zeta in H.
   destruct H as (_ & H); [vm_compute; auto|]. exact (H q).
 Qed.
+
+Lemma r_commit : forall de s, reachable s -> reachable (fst (commit de s)).
+Proof.
+  intros de s H. pose proof (r_step s (OCommit de) H) as R. unfold step in R. destruct (commit de s); exact R.
+Qed.
+
+(** Copy in the middle of a transaction (journal not empty): the copy keeps the dirty objects but
+    not the journal, so its Finalise neither deletes a self-destructed account nor clears the
+    flag; a later copy of that state then differs from it on HasSuicided. *)
+Definition midtx_s : state := run [OSetBalance 1 5; OFinalise false; OSuicide 1] (new_state fempty).
+Definition midtx_c : state := fst (commit true (copy midtx_s)).
+
+Lemma copy_midtx_refuted :
+  reachable midtx_c /\
+  st_journal midtx_s <> nil /\
+  ask midtx_c (QSuicided 1) = AB true /\ ask (copy midtx_c) (QSuicided 1) = AB false /\
+  is_some (snd (commit true (copy midtx_s)) 1) = true /\ is_some (snd (commit true midtx_s) 1) = false.
+Proof.
+  split.
+  - unfold midtx_c. apply r_commit, r_copy. unfold midtx_s. cbn [run]. repeat apply r_step. apply r_new.
+  - split; [vm_compute; discriminate|]. repeat split; vm_compute; reflexivity.
+Qed.
